@@ -36,14 +36,15 @@ func AddStandardFilters(fd FilterDictionary) { //nolint: gocyclo
 		return value
 	})
 	fd.AddFilter("json", func(a any) any {
-		result, _ := json.Marshal(a)
+		result, _ := json.Marshal(resolveDrops(a))
 		return result
 	})
 
 	// array filters
 	fd.AddFilter("compact", func(a []any) (result []any) {
 		for _, item := range a {
-			if item != nil {
+			// a Drop that stands for nil is nil
+			if values.ToLiquid(item) != nil {
 				result = append(result, item)
 			}
 		}
@@ -352,10 +353,11 @@ func uniqFilter(a []any) (result []any) {
 			return false
 		}
 		if k := reflect.TypeOf(item).Kind(); k < reflect.Array || k == reflect.String || k == reflect.Ptr || k == reflect.UnsafePointer {
-			if seenMap[item] {
+			key := numberKey(item)
+			if seenMap[key] {
 				return true
 			}
-			seenMap[item] = true
+			seenMap[key] = true
 			return false
 		}
 		// the O(n^2) case:
@@ -374,6 +376,65 @@ func uniqFilter(a []any) (result []any) {
 	}
 	return
 }
+
+// numberKey maps equal numbers of different Go types (1, int8(1), 1.0) to one map key; other
+// values are their own key.
+func numberKey(item any) any {
+	rv := reflect.ValueOf(item)
+	switch rv.Kind() {
+	case reflect.Int, reflect.Int8, reflect.Int16, reflect.Int32, reflect.Int64:
+		return rv.Int()
+	case reflect.Uint, reflect.Uint8, reflect.Uint16, reflect.Uint32, reflect.Uint64, reflect.Uintptr:
+		if u := rv.Uint(); u <= math.MaxInt64 {
+			return int64(u)
+		}
+		return rv.Uint()
+	case reflect.Float32, reflect.Float64:
+		f := rv.Float()
+		if f == math.Trunc(f) && f >= -(1<<63) && f < 1<<63 {
+			return int64(f)
+		}
+		return f
+	}
+	return item
+}
+
+// resolveDrops replaces the Drops nested in arrays and string-keyed maps by the values they stand
+// for; a value that holds none is returned as it is.
+func resolveDrops(v any) any {
+	v = values.ToLiquid(v)
+	if v == nil {
+		return nil
+	}
+	rv := reflect.ValueOf(v)
+	switch rv.Kind() {
+	case reflect.Slice, reflect.Array:
+		if rv.Type().Elem().Kind() != reflect.Interface && !rv.Type().Elem().Implements(dropType) {
+			return v
+		}
+		if rv.Kind() == reflect.Slice && rv.IsNil() {
+			return v
+		}
+		out := make([]any, rv.Len())
+		for i := range out {
+			out[i] = resolveDrops(rv.Index(i).Interface())
+		}
+		return out
+	case reflect.Map:
+		if rv.Type().Key().Kind() != reflect.String || rv.IsNil() ||
+			(rv.Type().Elem().Kind() != reflect.Interface && !rv.Type().Elem().Implements(dropType)) {
+			return v
+		}
+		out := make(map[string]any, rv.Len())
+		for _, k := range rv.MapKeys() {
+			out[k.String()] = resolveDrops(rv.MapIndex(k).Interface())
+		}
+		return out
+	}
+	return v
+}
+
+var dropType = reflect.TypeOf((*interface{ ToLiquid() any })(nil)).Elem()
 
 func eqItems(a, b any) bool {
 	if a == nil || b == nil {
